@@ -150,7 +150,7 @@ def check(ctx):
     else:
         ps = ev.fn_paths(ge[0])
         txt = render(ps[0][1]) if ps else ""
-        if re.match(r"^export const ‹\w+›Schema = z\.enum\(\[", txt) and txt.rstrip().endswith("]);"):
+        if re.match(r"^export const ‹\w+›Schema = z\.enum\(\[[^\]\n;]*\]\);\s*(\n|$)", txt):
             r1.ok("enum -> %s" % txt.strip()[:80])
         else:
             r1.bad(V(r1.id, "ZodBindingsGenerator::generate_enum_schema", "enum-shape:%s" % txt.strip()[:60], "enums are rendered as %s, not as z.enum([literals])" % txt.strip()[:80]))
